@@ -18,7 +18,8 @@
    to re-schedule sets `scheduled` back to true before it unlocks, so the follow-up drain owns the
    shard.  ReschedKeepsFlag = FALSE is the variant "clear the flag, re-invoke, do not set it again"
    (MC_f7.cfg): the follow-up drain runs while the shard looks unscheduled, the next Submit schedules a
-   second drain, and with Workers >= 2 two handlers of one shard overlap (C37_NoOverlap; 19 states).
+   second drain, and with Workers >= 2 two handlers of one shard overlap or run out of order
+   (C37_Order after 20 states, C37_NoOverlap after 21).
    Its counterexample is the gated schedule "mailbox-resched-overlap" of the harness. *)
 EXTENDS WorkQueue, TLC
 
